@@ -843,14 +843,14 @@ pub fn check(ctx: &Ctx) {
     common::cert(KeyKind::Rsa2048V4, 3);
     let mut rc = Vec::new();
     for v6 in [false, true] {
-        for block in 0..if deep { 40u64 } else { 12 } {
+        for block in 0..if deep { 160u64 } else { 12 } {
             rc.push(RsaCase { v6, block });
         }
     }
     ctx.run_space(
         "rsa_ciphertext_lengths",
         true,
-        "an RSA-2048 recipient x 3072 (thorough 10240) encryptions per PKESK version with consecutive rng seeds: EVERY ciphertext whose integer has leading zero octets (a shorter MPI; about 1 in 256) and every 64th ordinary one is decrypted by the recipient key and must give the session key",
+        "an RSA-2048 recipient x 3072 (thorough 40960) encryptions per PKESK version with consecutive rng seeds: EVERY ciphertext whose integer has leading zero octets (a shorter MPI; about 1 in 256) and every 64th ordinary one is decrypted by the recipient key and must give the session key",
         rc.into_par_iter(),
         run_rsa,
     );
@@ -861,7 +861,7 @@ pub fn check(ctx: &Ctx) {
         if v2 {
             alphabet.push(BuilderOp::Pw(1));
         }
-        let max = if deep { 4 } else { 3 };
+        let max = if deep { 5 } else { 3 };
         let mut seqs: Vec<Vec<BuilderOp>> = vec![vec![]];
         let mut frontier: Vec<Vec<BuilderOp>> = vec![vec![]];
         for _ in 0..max {
@@ -883,7 +883,7 @@ pub fn check(ctx: &Ctx) {
     ctx.run_space(
         "builder_operation_sequences",
         true,
-        "E3: EVERY sequence of up to 3 (thorough 4) operations out of {encrypt_to_key(A), encrypt_to_key_anonymous(B), encrypt_to_key(B), encrypt_with_password(p) (SEIPDv2: two passwords), set_session_key(k1), set_session_key(k2), set_session_key(wrong length)} on one SEIPDv1 / SEIPDv2 builder, whichever of them the builder refuses: every recipient whose operation was accepted opens the finished message; a session key of the wrong length is never accepted",
+        "E3: EVERY sequence of up to 3 (thorough 5) operations out of {encrypt_to_key(A), encrypt_to_key_anonymous(B), encrypt_to_key(B), encrypt_with_password(p) (SEIPDv2: two passwords), set_session_key(k1), set_session_key(k2), set_session_key(wrong length)} on one SEIPDv1 / SEIPDv2 builder, whichever of them the builder refuses: every recipient whose operation was accepted opens the finished message; a session key of the wrong length is never accepted",
         qc.into_par_iter(),
         run_seq,
     );
